@@ -9,10 +9,12 @@ mod canon;
 mod tgen;
 mod rng;
 mod oracle;
+pub mod peer;
 mod c01;
 mod c02;
 mod c03;
 mod c04;
+mod c04net;
 mod c05;
 mod c06;
 mod c07;
@@ -25,12 +27,56 @@ mod c13;
 mod c14;
 mod c15;
 mod c16;
+mod c16_sched;
 mod c17;
 mod c18;
 mod c19;
 mod c20;
 
+use std::alloc::{GlobalAlloc, Layout, System};
 use std::io::Write;
+use std::sync::atomic::{AtomicUsize, Ordering};
+
+/// Counting allocator: the largest single request and the peak live bytes since the last reset
+/// (C02 "never requests memory out of proportion to the input", C05 "refused before any buffer is allocated").
+pub struct Counting;
+pub static PEAK_REQUEST: AtomicUsize = AtomicUsize::new(0);
+pub static LIVE: AtomicUsize = AtomicUsize::new(0);
+pub static PEAK_LIVE: AtomicUsize = AtomicUsize::new(0);
+
+unsafe impl GlobalAlloc for Counting {
+    unsafe fn alloc(&self, l: Layout) -> *mut u8 {
+        PEAK_REQUEST.fetch_max(l.size(), Ordering::Relaxed);
+        let live = LIVE.fetch_add(l.size(), Ordering::Relaxed) + l.size();
+        PEAK_LIVE.fetch_max(live, Ordering::Relaxed);
+        unsafe { System.alloc(l) }
+    }
+    unsafe fn dealloc(&self, p: *mut u8, l: Layout) {
+        LIVE.fetch_sub(l.size(), Ordering::Relaxed);
+        unsafe { System.dealloc(p, l) }
+    }
+    unsafe fn realloc(&self, p: *mut u8, l: Layout, new_size: usize) -> *mut u8 {
+        PEAK_REQUEST.fetch_max(new_size, Ordering::Relaxed);
+        if new_size > l.size() {
+            let live = LIVE.fetch_add(new_size - l.size(), Ordering::Relaxed) + new_size - l.size();
+            PEAK_LIVE.fetch_max(live, Ordering::Relaxed);
+        } else {
+            LIVE.fetch_sub(l.size() - new_size, Ordering::Relaxed);
+        }
+        unsafe { System.realloc(p, l, new_size) }
+    }
+}
+
+#[global_allocator]
+static GLOBAL: Counting = Counting;
+
+pub fn alloc_reset() {
+    PEAK_REQUEST.store(0, Ordering::Relaxed);
+    PEAK_LIVE.store(LIVE.load(Ordering::Relaxed), Ordering::Relaxed);
+}
+pub fn alloc_peak_request() -> usize {
+    PEAK_REQUEST.load(Ordering::Relaxed)
+}
 
 pub struct Ctx {
     pub rng: rng::Rng,
@@ -84,10 +130,15 @@ fn main() {
     // a panic inside the implementation must not take the harness down silently
     std::panic::set_hook(Box::new(|_| {}));
     match a[1].as_str() {
+        "c02child" => {
+            c02::child(&a[4], &ctx.args[0]);
+            return;
+        }
         "c01" => c01::run(&mut ctx),
         "c02" => c02::run(&mut ctx),
         "c03" => c03::run(&mut ctx),
         "c04" => c04::run(&mut ctx),
+        "c04net" => c04net::run(&mut ctx),
         "c05" => c05::run(&mut ctx),
         "c06" => c06::run(&mut ctx),
         "c07" => c07::run(&mut ctx),
